@@ -94,7 +94,7 @@ func (C06Mix) Init(env world.Env) mc.Model {
 
 var c06Templates = []string{
 	"Proof:P1:A", "Proof:P2:A", "Proof:P3:B", "Attest:P2", "Attest:P3", "Report:P1", "Report:P3",
-	"AddViewers", "RemoveEditors", "ResetViewers", "Bid", "AcceptBid", "Buy", "Notify", "BuyStorage", "DeleteA", "PostOnce", "ProofBroken:P3:B", "RnsInit:U2", "RnsInit:P3", "NextBlock",
+	"AddViewers", "RemoveEditors", "ResetViewers", "Bid", "AcceptBid", "Buy", "Notify", "BuyStorage", "DeleteA", "PostOnce", "ProofBroken:P3:B", "RnsInit:U2", "RnsInit:P3", "ProvisionEmpty", "NextBlock",
 }
 
 func (C06Mix) Events(env world.Env, mm mc.Model) []string {
@@ -164,6 +164,8 @@ func (C06Mix) Apply(env world.Env, mm mc.Model, ev string) mc.Step {
 		msg = storagetypes.NewMsgBuyStorage(u2, u2, 90, 3000_000_000_000, "ujkl")
 	case "DeleteA":
 		msg = storagetypes.NewMsgDeleteFile(u1, c06FA.merkle, m.StartA)
+	case "ProvisionEmpty": // a second account provisions its file tree with an access map that is well-formed JSON but empty
+		msg = fttypes.NewMsgProvisionFileTree(u2, "{}", "null", c10Track)
 	case "RnsInit": // the free-name message; a second one in the same block meets a starter name that is taken
 		msg = rnstypes.NewMsgInit(w.A(p[1]).Bech)
 	case "PostOnce": // a one-time-payment file for 100 days: its gauge ends on a calendar date (January -> April)
@@ -191,9 +193,9 @@ var C06Skipped []string
 // one-day blocks (so that it ends in a reward block), plus search-tree paths of the other properties' scenarios.
 func C06Histories(tier string) []C06History {
 	var out []C06History
-	depth, k, other := 2, 470, 25
+	depth, k, other := 2, 520, 25
 	if tier == "thorough" {
-		depth, k, other = 3, 9800, 300
+		depth, k, other = 3, 11200, 300
 	}
 	// the failure path of the proof system: nobody proves again, so that reward blocks strike provers off, burn their
 	// contracts and drop the files - 9 blocks after nothing or one template
